@@ -198,6 +198,11 @@ func mutations(b []byte, others [][]byte, rng *rand.Rand, thorough bool, emit fu
 						emit(mutant{"lenedit", splice(b, p.lenOff, p.lenLen, uvarint(uint64(p.valLen+d)))})
 					}
 				}
+				// the prefix announces far more than is present (a decoder that sizes its result from the prefix - packed arrays,
+				// byte strings - allocates what the peer asks for): 64 KiB / 1 MiB / 16 MiB more, 2^62, 2^63 + 5
+				for _, x := range []uint64{uint64(p.valLen) + 1<<16, uint64(p.valLen) + 1<<20, uint64(p.valLen) + 1<<24, 1 << 62, 1<<63 + 5} {
+					emit(mutant{"lenedit", splice(b, p.lenOff, p.lenLen, uvarint(x))})
+				}
 				// length that reaches exactly / one past the end of the whole message
 				rest := n - p.valOff
 				emit(mutant{"lenedit", splice(b, p.lenOff, p.lenLen, uvarint(uint64(rest)))})
